@@ -38,9 +38,23 @@ def run(ctx):
             ctx.finding("C05.P1", B, "walk-complete", "the builder can stop iterating the claims early (line %s): remaining members/elements are dropped from the payload" % e["line"], line=B.term(lp.bb).get("line"))
         else:
             ctx.ok("C05.P1", B, "walk-complete", "the builder visits every member/element (no early exit from its loops)")
+        import c12
+        bv = vals(B)
+        raws = [e for e in cfg.exit_sites(B) if "rv" in e and c12.raw_copy_of_param(bv._rv(e["rv"], e["bb"], e["idx"])) is not None]
+        rvw = peel(bv.return_value())
+        if not raws and any(c12.raw_copy_of_param(a) is not None for a in (rvw.kids if rvw.kind == "phi" else [rvw])):
+            raws = [{"line": B.line}]
+        if raws:
+            ctx.finding("C05.P1", B, "passthrough", "the builder can return (a copy of) its input container unwalked: designated claims beneath it stay in clear", line=raws[0].get("line"))
+        else:
+            ctx.ok("C05.P1", B, "passthrough", "every value the builder returns is assembled from processed children")
     p3(ctx, fx, I)
     p4(ctx, fx, I)
     p5(ctx, fx, I)
+    # P2 (well-formedness half): the text that is hashed into `_sd` / `...` is the JSON array ["salt", name, value] with the member's own name
+    # JSON-encoded by serde (rule shared with C01.e): otherwise the digest at the claim's position is not that of a disclosure for this claim
+    import c01
+    c01.clause_e(common.RelabelCtx(ctx, "C05.P2", keep=("name-encoding", "text-format", "value-encoding")), fx)
 
 
 def consumers_of(fn, S):
